@@ -45,6 +45,26 @@ func (d *donorDB) fingerprint() string {
 	return strings.Join(fs, ";")
 }
 
+// failDB is a memory store whose n-th PutNode (counted from arming) fails, as a full disk would.
+type failDB struct {
+	*util.MemoryNodeDB
+	failAt int // -1 = never
+	puts   int
+}
+
+var errInjectedPut = fmt.Errorf("injected store write failure")
+
+func (f *failDB) PutNode(key util.Key, node util.Node) error {
+	if f.failAt >= 0 {
+		if f.puts == f.failAt {
+			f.puts++
+			return errInjectedPut
+		}
+		f.puts++
+	}
+	return f.MemoryNodeDB.PutNode(key, node)
+}
+
 func perms(n, cap int) [][]int {
 	if n == 0 {
 		return [][]int{{}}
@@ -314,6 +334,85 @@ func C17(tier rt.Tier) int {
 										}
 									}
 								}
+								// 2b. a repair that is interrupted by a store write error must leave the trie telling the truth
+								// about what is still absent (first donor order only: the failure position is the variable)
+								if len(remList) > 0 && len(order) > 0 && order[0] == 0 && sort.IntsAreSorted(order) {
+									for failAt := 0; failAt < len(remList); failAt++ {
+										fdb := &failDB{MemoryNodeDB: util.NewMemoryNodeDB(), failAt: -1}
+										_ = db.Iterate(context.Background(), func(ctx context.Context, key util.Key, node util.Node) error {
+											return fdb.MemoryNodeDB.PutNode(key, node)
+										})
+										tf := util.NewMerklePatriciaTrie(fdb, util.Sequence(tver), root, statecache.NewEmpty())
+										fdb.failAt, fdb.puts = failAt, 0
+										err := tf.MergeDB(donor, root, nil)
+										fdb.failAt = -1
+										if err == nil {
+											violate("mergedb-swallow", fmt.Sprintf("%s: store write %d of the repair failed but MergeDB returned nil", desc, failAt), replay)
+											return
+										}
+										still := map[string]bool{}
+										for h := range removed {
+											if _, e := fdb.MemoryNodeDB.GetNode(util.Key(h)); e != nil {
+												still[h] = true
+											}
+										}
+										wantF := map[string]bool{}
+										for h := range still {
+											top := true
+											for p := ci.parent[h]; p != ""; p = ci.parent[p] {
+												if still[p] {
+													top = false
+												}
+											}
+											if top {
+												wantF[h] = true
+											}
+										}
+										gotF, errF := tf.GetAllMissingNodes()
+										gs := map[string]bool{}
+										for _, k := range gotF {
+											gs[string(k)] = true
+										}
+										if errF != nil || !sameSet(gs, wantF) {
+											violate("mergedb-fail-missing", fmt.Sprintf("%s: store write %d of the repair failed; afterwards the same trie reports missing nodes %s (%v), the store lacks %s", desc, failAt, hexSet(gs), errF, hexSet(wantF)), replay)
+											return
+										}
+										for _, p := range paths {
+											hits := false
+											for _, h := range crossed(canon, p) {
+												if still[string(h)] {
+													hits = true
+												}
+											}
+											if v, err := tf.GetNodeValueRaw(util.Path(p)); hits && (err == nil || err == util.ErrValueNotPresent) {
+												violate("mergedb-fail-lookup", fmt.Sprintf("%s: store write %d of the repair failed; lookup(%q) crosses a node the store still lacks but returned %q, %v", desc, failAt, p, v, err), replay)
+												return
+											}
+										}
+									}
+								}
+								// 2c. a delete on the damaged trie either fails or leaves the canonical root of the remaining content
+								if len(order) == 0 || (order[0] == 0 && sort.IntsAreSorted(order)) {
+									for _, p := range keys {
+										cdb := util.NewMemoryNodeDB()
+										_ = db.Iterate(context.Background(), func(ctx context.Context, key util.Key, node util.Node) error { return cdb.PutNode(key, node) })
+										td := util.NewMerklePatriciaTrie(cdb, util.Sequence(origin), root, statecache.NewEmpty())
+										nr, err := td.Delete(util.Path(p))
+										if err != nil {
+											continue
+										}
+										rest := map[string][]byte{}
+										for k, v := range content {
+											if k != p {
+												rest[k] = v
+											}
+										}
+										if want := model.CanonicalMPT(rest, origin).Hash(); !bytes.Equal(nr, want) {
+											violate("delete-damaged", fmt.Sprintf("%s: Delete(%q) on the damaged trie reported success with root %x; the canonical root of the remaining content is %x", desc, p, nr, want), replay)
+											return
+										}
+									}
+								}
 								// 3. repair
 								atomic.AddInt64(&repairs, 1)
 								before := donor.fingerprint()
@@ -361,7 +460,7 @@ func C17(tier rt.Tier) int {
 	rep.Set("distinct_nontrivial", int(cases))
 	rep.Set("lookups_judged", int(lookups))
 	rep.Set("repairs_judged", int(repairs))
-	rep.Set("rule", fmt.Sprintf("every content of <= %d of the paths %q (prefix pairs, interior values, prefix-free 4-char paths) x EVERY subset of its reachable non-root nodes removed from the store (all subsets up to 2^9, else all of size <= 3) x trie version equal to / different from the nodes' origin x every order of the donor store's iteration (all permutations up to %d nodes, rotations+reversals above). Oracle: HasMissingNodes <=> some node absent; GetAllMissingNodes, and the keys a full tolerant Iterate reports to its handler and records in GetMissingNodeKeys, == absent nodes whose ancestors are all present; a lookup that crosses an absent node (per the independent canonical trie) returns an error other than 'value not present', all other lookups answer per model; after MergeDB: no missing node, full content, same root, donor node objects unchanged; 'states' = contents, 'transitions' = (content, removal subset, version, order) cases", maxKeys, paths, permCap))
+	rep.Set("rule", fmt.Sprintf("every content of <= %d of the paths %q (prefix pairs, interior values, prefix-free 4-char paths) x EVERY subset of its reachable non-root nodes removed from the store (all subsets up to 2^9, else all of size <= 3) x trie version equal to / different from the nodes' origin x every order of the donor store's iteration (all permutations up to %d nodes, rotations+reversals above). Oracle: HasMissingNodes <=> some node absent; GetAllMissingNodes, and the keys a full tolerant Iterate reports to its handler and records in GetMissingNodeKeys, == absent nodes whose ancestors are all present; a lookup that crosses an absent node (per the independent canonical trie) returns an error other than 'value not present', all other lookups answer per model; after MergeDB: no missing node, full content, same root, donor node objects unchanged; a MergeDB interrupted by a store write error (every position) returns the error and the same trie keeps reporting exactly what the store still lacks; a Delete on the damaged trie either fails or yields the canonical root of the remaining content; 'states' = contents, 'transitions' = (content, removal subset, version, order) cases", maxKeys, paths, permCap))
 	rep.Sample(map[string]any{"content": []string{"aa", "ab", "0a1b"}, "removed": "second-level branch", "trie_version": 5, "order": []int{0}})
 	return rep.Finish()
 }
